@@ -23,8 +23,8 @@ _CORPUS = {"examples": None, "snippets": None}
 
 def tier_params(tier):
     if tier == "thorough":
-        return {"cases": 900, "schedules": 96, "snippets": "all", "wall_budget_s": 3000}
-    return {"cases": 170, "schedules": 20, "snippets": 45, "wall_budget_s": 600}
+        return {"cases": 2400, "schedules": 96, "snippets": "all", "wall_budget_s": 3300}
+    return {"cases": 300, "schedules": 24, "snippets": 60, "wall_budget_s": 600}
 
 
 SIMTYPES = "@SIMTYPES@"
